@@ -96,6 +96,8 @@ func rootAddr(v ssa.Value) ssa.Value {
 			v = x.X
 		case *ssa.Convert:
 			v = x.X
+		case *ssa.Slice:
+			v = x.X
 		default:
 			return v
 		}
